@@ -99,7 +99,10 @@ def _cargo_env(target_dir):
     env["CARGO_NET_OFFLINE"] = "true"
     env["CARGO_TARGET_DIR"] = target_dir
     env["RUSTFLAGS"] = RUSTFLAGS + (" -Cinstrument-coverage" if COVERAGE else "")
-    env.pop("LLVM_PROFILE_FILE", None)
+    if COVERAGE:
+        # build scripts and proc macros are instrumented too and run with the package directory (inside /repo) as their
+        # working directory: give their profiles a place of their own
+        env["LLVM_PROFILE_FILE"] = os.path.join(BUILD, "prof-build", "b-%p-%8m.profraw")
     env.pop("RUSTC_WRAPPER", None)
     return env
 
